@@ -31,19 +31,33 @@ class Src(object):
     """Instrumented source: counts the values pulled from it; may raise instead of value number `crash`,
     or deliver an unpicklable object as value number `bad`."""
 
-    def __init__(self):
+    def __init__(self, style="int"):
         self.pulled = 0
-        self.vals = []
+        self.avals = []
         self.crash = None
         self.bad = None
+        self.style = style
 
     def __call__(self):
-        vals, crash, bad = list(self.vals), self.crash, self.bad
-        for i, v in enumerate(vals, 1):
+        avals, crash, bad, style = list(self.avals), self.crash, self.bad, self.style
+        # aliasing upstreams: ONE context dict updated in place for every value / ONE growing list
+        # (legal for a lazy flow: each value is consumed before the next one is produced)
+        shared_ctx, shared_list = {}, []
+        for i, a in enumerate(avals, 1):
             if crash == i:
                 raise Injected("src")
             self.pulled += 1
-            yield Unpicklable() if bad == i else v
+            if bad == i:
+                yield Unpicklable()
+            elif style == "alias_ctx":
+                shared_ctx["cur"] = a
+                shared_ctx.setdefault("seen", []).append(a)
+                yield (a, shared_ctx)
+            elif style == "alias_list":
+                shared_list.append(a)
+                yield shared_list
+            else:
+                yield enc(a, style)
 
 
 class Tap(object):
@@ -62,11 +76,17 @@ class Tap(object):
             yield (self.name, x)
 
 
-STYLES = ("int", "pair", "str", "nested", "ctxonly")
+STYLES = ("int", "pair", "str", "nested", "ctxonly", "alias_ctx", "alias_list")
 
 
 def enc(a, style):
-    """Abstract value a (100 * version + index) -> concrete picklable flow value."""
+    """Abstract value a (100 * version + index) -> concrete picklable flow value
+    (for the aliasing styles: the snapshot of the shared object at the moment it is yielded)."""
+    first = 100 * (a // 100) + 1
+    if style == "alias_ctx":
+        return (a, {"cur": a, "seen": list(range(first, a + 1))})
+    if style == "alias_list":
+        return list(range(first, a + 1))
     if style == "int":
         return a
     if style == "pair":
@@ -88,7 +108,7 @@ class Pipeline(object):
 
     def __init__(self, directory, nc, shape, style):
         self.dir, self.nc, self.shape, self.style = directory, nc, shape, style
-        self.src = Src()
+        self.src = Src(style)
         self.taps = {}
         self.caches = []
         self.names = ["c1.pkl", os.path.join("sub", "c2.pkl")][:nc]
@@ -151,7 +171,8 @@ def run_history(workdir, scen, cmds, style="int", protocol=2, drain=True, probe=
     drain: a run still open at the end is continued to its end; probe: afterwards a fresh
     non-recompute pipeline is run `probe` times to its end (reveals what the caches now hold).
     """
-    n, nc, shape = scen["n"], scen["nc"], scen["shape"]
+    lens, nc, shape = scen["lens"], scen["nc"], scen["shape"]
+    n = max(lens)
     d = workdir
     _clean(d)
     pl = Pipeline(d, nc, shape, style)
@@ -160,13 +181,14 @@ def run_history(workdir, scen, cmds, style="int", protocol=2, drain=True, probe=
     decode = {}
 
     def values(ver):
-        vals = []
-        for i in range(1, n + 1):
+        """Abstract values of data version ver; every value is identified at the moment it is yielded
+        by the repr of its snapshot (decode)."""
+        avals = []
+        for i in range(1, lens[min(ver, len(lens)) - 1] + 1):
             a = 100 * ver + i
-            v = enc(a, style)
-            decode[repr(pl.wrap(v))] = a
-            vals.append(v)
-        return vals
+            decode[repr(pl.wrap(enc(a, style)))] = a
+            avals.append(a)
+        return avals
 
     def log(cmd, a, res, v=0, c=0):
         events.append({"cmd": cmd, "a": a, "res": res, "v": v, "c": c, "rc": list(state["rc"]),
@@ -269,8 +291,9 @@ def run_history(workdir, scen, cmds, style="int", protocol=2, drain=True, probe=
                     res = "exc"
                 log("drop", "", res, c=c["c"])
             elif name == "data":
-                state["ver"] += 1
-                log("data", "", "ok")
+                if state["ver"] < len(lens):
+                    state["ver"] += 1
+                    log("data", "", "ok")
             elif name == "start":
                 # look ahead: is an element told to raise in this run, and at which value
                 crash, k = None, 0
